@@ -102,6 +102,7 @@ PROPS["C18"] = {
 }
 
 ALLCFG = ["asm", "asm+nobmi2", "asm-clang", "portable64", "portable32"]
+NDEBUG = ["asm-ndebug"]
 
 PROPS["C02"] = {
     "translators": ["consts"],
@@ -109,7 +110,7 @@ PROPS["C02"] = {
     "theorems": lambda: module_theorems("JediVerif.Properties.C02", "Jedi.C02") + module_theorems("JediVerif.Properties.C02b", "Jedi.C02"),
     "streams": lambda seed, tier: [
         {"cfg": c, "name": g, "lines": no_alias(gen(g, seed, n if tier == "quick" else 6 * n, tier))}
-        for c in cfgs(tier, ["asm", "portable64", "portable32"], ALLCFG + ["asan", "asan-portable"])
+        for c in cfgs(tier, ["asm", "portable64", "portable32", "asm-ndebug"], ALLCFG + ["asan", "asan-portable", "asm-ndebug", "portable32-ndebug"])
         for (g, n) in (("fp", 10), ("bigint", 4))],
     "hypotheses": [],
     "not_modelled": "'uniform' for random is the first-accepted-draw statement, not a probability statement; Fq::compare orders Montgomery representatives (modelled as coded in Impl/Encode.lean)",
@@ -163,7 +164,7 @@ def stream_set(groups, quick_cfgs, thorough_cfgs, alias=None, scale=5):
     return f
 
 PROPS["C03"] = {
-    "translators": ["consts", "asm2lean"],
+    "translators": ["consts", "asm2lean", "arm2lean"],
     "lean_targets": ["JediVerif.Properties.C02"] + targets_if_exist("JediVerif.Properties.C03", "JediVerif.Properties.C03b"),
     "theorems": lambda: thms("C03", extra=(("JediVerif.Properties.C03b", "Jedi.C03"),)) + [t for t in module_theorems("JediVerif.Properties.C02", "Jedi.C02") if any(k in t[0] for k in ("bigint_", "fp_", "montgomery", "limbs_unique", "fq_", "fr_"))],
     "streams": stream_set([("asm", 10), ("bigint", 4), ("fp", 8)], ["asm", "asm+nobmi2", "portable64", "portable32"], ["asm", "asm+nobmi2", "asm-clang", "asm-O0", "portable64", "portable64-O0", "portable32", "portable32-O0", "asan", "asan-portable"], alias=None),
@@ -192,7 +193,7 @@ PROPS["C01"] = {
     "translators": ["consts", "tower"],
     "lean_targets": prop_modules("C01", extra=("JediVerif.Properties.C01b", "JediVerif.Properties.C01c", "JediVerif.Properties.C01d")),
     "theorems": lambda: thms("C01", extra=(("JediVerif.Properties.C01b", "Jedi.C01"), ("JediVerif.Properties.C01c", "Jedi.C01"), ("JediVerif.Properties.C01d", "Jedi.C01"))),
-    "streams": stream_set([("pairing", 6)], ["asm", "portable32"], ALLCFG, scale=3),
+    "streams": stream_set([("pairing", 6)], ["asm", "portable32"], ALLCFG + ["asm-ndebug"], scale=3),
     "filter": lambda l: not l.startswith(("pairing_sum", "pairing_prep", "prepare")),
     "hypotheses": ["H-bilinear: the textbook optimal-ate function of Spec/Pairing.lean is bilinear and non-degenerate on G1 x G2 (Vercauteren 2010); not provable with the Lean libraries present"],
 }
